@@ -350,6 +350,10 @@ func (p *Proxy) handleCONNECT(r responder.Responder, proxyReq *http.Request) err
 		if err := p.handleHTTP(responder, req); err != nil {
 			slog.Error("Error processing HTTP request in CONNECT tunnel", "host", proxyReq.Host, "error", err)
 		}
+		// A request body the handler did not consume (e.g. the answer came from the cache) must
+		// not stay in the reader: it would be parsed as the start of the next request.
+		io.Copy(io.Discard, req.Body)
+		req.Body.Close()
 	}
 
 	slog.Debug("Exiting CONNECT tunnel", "host", proxyReq.Host)
